@@ -46,6 +46,7 @@ TCall == /\ HasLine("call")
               [] L.api = "activate"     -> Activate(L.i, L.gv)
               [] L.api = "write_setter" -> WriteSetter(L.i, L.v)
               [] L.api = "write_model"  -> WriteModel(L.i, L.v)
+              [] L.api = "set_attr"     -> SetTag(L.i, L.v)
               [] L.api = "add_listener" -> AddListeners(L.i, SeqToSet(L.vs))
               [] L.api = "copy"         -> Copy(L.i, L.j)
               [] OTHER -> FALSE
@@ -94,6 +95,7 @@ ProjOK(j, p) ==
             /\ SeqToSet(p.active) = ProjActive(d, m)
             /\ p.events = d.events
             /\ p.modelok
+            /\ p.tag = m.tag
 
 TRet == /\ HasLine("ret")
         /\ Return(L.i)
